@@ -791,4 +791,46 @@ Proof.
   intros ND. apply KP_forest_of; [|exact ND]. apply Forall_forall. intros t _. apply KP_tree.
 Qed.
 
+(* in place = copying, modulo the D24 leaves *)
+Theorem inplace_vs_copy f : NoDup (ids f) -> same_modulo_ids (filtered v f) (dbl v (filter_inplace v f)).
+Proof. intros ND. rewrite (filter_inplace_is_F f ND). apply filtered_is_dbl_F. Qed.
+
+(* outside the D24 region the copying form is F itself *)
+Lemma dbl_f_id_of l : Forall (fun t => (forall n, In n (ids_t t) -> v n <> VTrue /\ v n <> VSkipKeepSelf) -> dbl_t v t = t) l ->
+  (forall n, In n (ids l) -> v n <> VTrue /\ v n <> VSkipKeepSelf) -> map (dbl_t v) l = l.
+Proof.
+  induction 1 as [|x l Hx _ IH]; intros H; [reflexivity|]. cbn [map].
+  rewrite Hx, IH; [reflexivity| |]; intros n Hn; apply H; rewrite ids_cons'; apply in_or_app; [right|left]; exact Hn.
+Qed.
+
+Lemma dbl_t_id : forall t, (forall n, In n (ids_t t) -> v n <> VTrue /\ v n <> VSkipKeepSelf) -> dbl_t v t = t.
+Proof.
+  induction t as [id i ch IH] using rt_ind'. intros H. cbn [dbl_t].
+  assert (Hid : v id <> VTrue /\ v id <> VSkipKeepSelf) by (apply H; rewrite ids_t_unfold; left; reflexivity).
+  assert (Hch : map (dbl_t v) ch = ch).
+  { apply (dbl_f_id_of ch IH). intros n Hn. apply H. rewrite ids_t_unfold. right. exact Hn. }
+  destruct Hid as [H1 H2]. destruct (v id); try reflexivity; try congruence; rewrite Hch; reflexivity.
+Qed.
+
+Theorem filtered_is_F_outside_D24 f :
+  (forall n, In n (ids f) -> v n <> VTrue /\ v n <> VSkipKeepSelf) -> same_modulo_ids (filtered v f) (F v f).
+Proof.
+  intros H. pose proof (filtered_is_dbl_F f) as E. unfold dbl in E.
+  rewrite (dbl_f_id_of (F v f)) in E; [exact E| |].
+  - apply Forall_forall. intros t _. apply dbl_t_id.
+  - intros n Hn. apply H. eapply sublist_in; [apply F_order|exact Hn].
+Qed.
+
 End P.
+
+(* ------------------------------------------------------------------ *)
+(* a checker for NoDup, for examples                                    *)
+Fixpoint nodupb (l : list nat) : bool :=
+  match l with [] => true | x :: r => negb (existsb (Nat.eqb x) r) && nodupb r end.
+
+Lemma nodupb_sound l : nodupb l = true -> NoDup l.
+Proof.
+  induction l as [|x l IH]; intros H; [constructor|]. cbn [nodupb] in H.
+  apply andb_true_iff in H. destruct H as [H1 H2]. constructor; [|apply IH, H2].
+  intros Hin. apply (existsb_eqb_in x l) in Hin. rewrite Hin in H1. discriminate H1.
+Qed.
